@@ -388,10 +388,24 @@ def digest_suite(v, sid, reference):
     return res
 
 
+class ValidatedAgainst(object):
+    """an element whose validate() means Validator.validate(element, reference=<the profile's structure>)"""
+    def __init__(self, el, ref):
+        self.__dict__["_el"] = el
+        self.__dict__["_ref"] = ref
+
+    def validate(self, report_file=None, return_errors=False):
+        from hl7apy.validation import Validator
+        return Validator.validate(self._el, reference=self._ref, report_file=report_file, return_errors=return_errors)
+
+    def __getattr__(self, name):
+        return getattr(self._el, name)
+
+
 def validation_events(v, sid, desc, prof, rnd):
     """messages validated against the profile; the expected errors come from the PROFILE's structure"""
     import_hl7apy()
-    from hl7apy.parser import parse_message
+    from hl7apy.parser import parse_message, parse_segment
     ref = prof[sid]
     nodes = flatten_profile(ref)
     tabs = seg_tables(ref, sid)
@@ -407,6 +421,30 @@ def validation_events(v, sid, desc, prof, rnd):
         e = c04.observe(m, v, sid, nodes, mode, desc)
         apply_tables(e, tabs, sid)
         out.append(e)
+        # the same text parsed WITHOUT the profile (every element carries the standard structure) and judged against it
+        try:
+            m2 = parse_message(text)
+            e2 = c04.observe(ValidatedAgainst(m2, ref), v, sid, nodes, mode + "+standard_tree_judged_against_profile", desc)
+            apply_tables(e2, tabs, sid)
+            out.append(e2)
+        except Exception:
+            pass
+        # the profile message with every segment replaced by one parsed on its own (standard structure inside)
+        try:
+            m3 = parse_message(text, message_profile=prof)
+
+            def swap(el):
+                for i, ch in enumerate(list(el.children)):
+                    if ch.classname == "Group":
+                        swap(ch)
+                    elif ch.classname == "Segment" and ch.name != "MSH":
+                        el.children[i] = parse_segment(ch.to_er7(), version=v)
+            swap(m3)
+            e3 = c04.observe(m3, v, sid, nodes, mode + "+segments_replaced_by_standard_ones", desc)
+            apply_tables(e3, tabs, sid)
+            out.append(e3)
+        except Exception:
+            pass
     return out
 
 
